@@ -122,7 +122,7 @@ func runE2E(p *pki, mock *sdsMock, groups []*group, ups []tcase, out string, par
 		fc := tcpProxyChain("echo")
 		fc.TLSContexts = tlsCfgs
 		ln := testutil.NewListener(lives[i].lname, addrs[i], []v2.FilterChain{fc})
-		ln.Inspector = groups[i].insp
+		ln.Inspector = lives[i].insp
 		return ln
 	}
 	for i, g := range groups {
